@@ -546,9 +546,13 @@ impl SegmentIndex {
         writer.flush()?;
         writer.get_ref().sync_all()?;
         drop(writer); // Ensure file handle is closed before rename
+        #[cfg(sneldb_verif)]
+        crate::verif_hooks::vp("idx_tmp_written");
 
         // Atomic rename: on most filesystems, this is an atomic operation
         std::fs::rename(&tmp_path, &path)?;
+        #[cfg(sneldb_verif)]
+        crate::verif_hooks::vp("idx_renamed");
 
         // Sync parent directory to ensure rename is persisted
         if let Some(parent) = path.parent() {
